@@ -850,6 +850,86 @@ func TestC18(t *testing.T) {
 			c.Sample(map[string]any{"shape": e.name, "value": fmt.Sprintf("%+v", src), "avps": refcodec.Describe(want), "wire": ev.Hex(wire)})
 		}
 	}
+	// the same struct type used with messages bound to two dictionaries in which the tagged
+	// names mean different codes and data types (GenXML / GenXML2), in both orders
+	gf2, err := refdict.Parse("gen2", lib.GenXML2)
+	if err != nil {
+		t.Fatal(err)
+	}
+	g2, err := lib.Load("gen2", gf2)
+	if err != nil {
+		t.Fatal(err)
+	}
+	rec.Suite("same-type-two-dictionaries", rec.N(200, 20000), func(c *ev.Case) {
+		type inner struct {
+			O []byte `avp:"G-Octets"`
+			A uint64 `avp:"G-U32"`
+		}
+		type shape struct {
+			O []byte `avp:"G-Octets"`
+			S []byte `avp:"G-UTF8"`
+			A uint64 `avp:"G-U32"`
+			B uint64 `avp:"G-U64"`
+			G inner  `avp:"G-Group"`
+		}
+		r := c.R
+		ctxs2 := []*lib.Ctx{g, g2}
+		first := c.I % 2
+		c.Class("two-dictionaries/first=%d", first)
+		for round := 0; round < 4; round++ {
+			cx := ctxs2[(first+round)%2]
+			src := shape{O: randASCII(r, 1+r.IntN(9)), S: randASCII(r, 1+r.IntN(9)), A: uint64(r.Uint32()), B: uint64(r.Uint32()),
+				G: inner{O: randASCII(r, 1+r.IntN(5)), A: uint64(r.Uint32())}}
+			sig := func(op string) ev.Sig { return ev.Sig{"op": op, "shape": "same-type-two-dictionaries"} }
+			m := diam.NewMessage(8388000, diam.RequestFlag, 0, 1, 2, cx.Parser)
+			var err error
+			if p, bad := guard(func() { err = m.Marshal(&src) }); bad || err != nil {
+				c.Fail(sig("marshal-error"), nil, nil, "round %d, dictionary %s: Marshal: err=%v %s", round, cx.Name, err, p)
+				return
+			}
+			// the codes the tags mean in the dictionary of this message
+			code := func(name string) uint32 {
+				d, ok := cx.Ix.FindAVPByName(0, name, refdict.AnyVendor)
+				if !ok {
+					t.Fatalf("reference: %s not defined in %s", name, cx.Name)
+				}
+				return d.Code
+			}
+			want := []uint32{code("G-Octets"), code("G-UTF8"), code("G-U32"), code("G-U64"), code("G-Group")}
+			var got []uint32
+			for _, a := range m.AVP {
+				got = append(got, a.Code)
+			}
+			if fmt.Sprint(got) != fmt.Sprint(want) {
+				c.Fail(sig("marshal-avps"), nil, nil, "round %d: the message is bound to dictionary %s, where the tags G-Octets, G-UTF8, G-U32, G-U64, G-Group mean codes %v; Marshal produced codes %v (the same struct type was used with the other dictionary before: %v)", round, cx.Name, want, got, round > 0)
+				return
+			}
+			if ga, ok := m.AVP[4].Data.(*diam.GroupedAVP); !ok || len(ga.AVP) != 2 || ga.AVP[0].Code != want[0] || ga.AVP[1].Code != want[2] {
+				c.Fail(sig("marshal-avps"), nil, nil, "round %d, dictionary %s: the nested group does not hold codes %d and %d", round, cx.Name, want[0], want[2])
+				return
+			}
+			wire, err := m.Serialize()
+			if err != nil {
+				c.Fail(sig("marshal-length"), nil, nil, "Serialize: %v", err)
+				return
+			}
+			rm, err := diam.ReadMessage(bytes.NewReader(wire), cx.Parser)
+			if err != nil {
+				c.Fail(sig("read"), wire, nil, "round %d, dictionary %s: ReadMessage of the marshalled message: %v", round, cx.Name, err)
+				return
+			}
+			var dst shape
+			if p, bad := guard(func() { err = rm.Unmarshal(&dst) }); bad || err != nil {
+				c.Fail(sig("unmarshal-wire"), wire, nil, "round %d, dictionary %s: Unmarshal: err=%v %s", round, cx.Name, err, p)
+				return
+			}
+			if !reflect.DeepEqual(src, dst) {
+				c.Fail(sig("roundtrip-wire"), wire, nil, "round %d, dictionary %s: Marshal -> wire -> Unmarshal gives %+v for %+v", round, cx.Name, dst, src)
+				return
+			}
+			c.Event("roundtrips", 1)
+		}
+	})
 	rec.Suite("values", n, func(c *ev.Case) { runValue(c, family[c.I%len(family)]) })
 	// a dictionary load that fails part-way must not take away what worked before: the same
 	// shapes against a private parser, before and after a load that restates the whole
